@@ -65,7 +65,8 @@ class HostSpec(Spec):
 
     def ops(self, cfg=None):
         return [('push', 'A'), ('dt', 5.0), ('dt', 2.5), ('cnt', 'inc'), ('nic', 'add'), ('nic', 'del'),
-                ('cnt', 'wrap'), ('cpu', 'work'), ('cpu', 'idle'), ('push', 'B')]
+                ('cnt', 'wrap'), ('cnt', 'wrap_out'), ('cnt', 'wrap_in'), ('cpu', 'work'), ('cpu', 'idle'),
+                ('push', 'B')]
 
     def enabled(self, st, op):
         if op == ('nic', 'add'):
@@ -98,6 +99,13 @@ class HostSpec(Spec):
             for v in st.nics.values():
                 if op[1] == 'inc':
                     v[0] += 128
+                    v[1] += 256
+                elif op[1] == 'wrap_out':
+                    # one counter of the pair wraps while the other one goes on
+                    v[0] += 128
+                    v[1] = 4
+                elif op[1] == 'wrap_in':
+                    v[0] = 3
                     v[1] += 256
                 else:
                     v[0], v[1] = 3, 4
@@ -192,7 +200,7 @@ class HostSpec(Spec):
                 rel = None
                 if ref:
                     rel = (cap(st.now - ref['now'], 2 * period + 1),
-                           tuple(sorted((k, sign(st.nics[k][0] - v[0]) if k in st.nics else None)
+                           tuple(sorted((k, (sign(st.nics[k][0] - v[0]), sign(st.nics[k][1] - v[1])) if k in st.nics else None)
                                         for k, v in ref['net_io'].items())),
                            tuple(sorted(k for k in st.nics if k not in ref['net_io'])),
                            tuple((sign(c[0] - r[0]), sign(c[1] - r[1])) for c, r in zip(st.cpu, ref['cpu'])))
